@@ -2,6 +2,8 @@ package checks
 
 import (
 	"fmt"
+	"os"
+	"path/filepath"
 	"strings"
 
 	"verif/harness/internal/observe"
@@ -21,7 +23,7 @@ func init() {
 	run.Register(&run.Check{
 		ID:    "C19",
 		Level: "fault_enumeration",
-		Rule: "fault enumeration: conflict kind (7: equal ANP priorities, ANP priority outside 0..1000, duplicate ANP name, duplicate NetworkPolicy name in one namespace, two BANPs, BANP not named default, pods of one owner with different labels) x number of other admin policies {0,1,2,3,5,8,11,12,13,20,31,64,200} x position of the conflicting documents {first,last,adjacent,far apart,median} x route {list, diff with the conflict in dir1, in dir2}, file placement random; the conflicting admin policy has rules in one direction, in both, or no rule at all; fillers include rule-less policies and the legal boundary priorities 0 and 1000; " +
+		Rule: "fault enumeration: conflict kind (7: equal ANP priorities, ANP priority outside 0..1000, duplicate ANP name, duplicate NetworkPolicy name in one namespace, two BANPs, BANP not named default, pods of one owner with different labels) x number of other admin policies {0,1,2,3,5,8,11,12,13,20,31,64,200} x position of the conflicting documents {first,last,adjacent,far apart,median} x route {list, diff with the conflict in dir1, in dir2}, file placement random; the conflicting admin policy has rules in one direction, in both, or no rule at all; fillers include rule-less policies and the legal boundary priorities 0 and 1000; in 30% of the cells a stray non-manifest / malformed file (a severe, recoverable error) is read before or after the conflict, in the twin too; " +
 			"each cell is run with the conflict (expected: error returned, no connections, a fatal entry in Errors(), message naming the conflict) and as a conflict-free twin (expected: clean analysis), so an oracle that fires on everything is caught; " +
 			"non-trivial = the conflict-free twin analysed cleanly with a non-empty report; distinct = cell + filler hash",
 		Assumptions:       []string{"'naming the conflict' = the message contains one of the conflicting resource names, the offending priority value, or the words baseline/default for the BANP kinds", "exposure mode is out of scope (it rejects every ANP)"},
@@ -29,7 +31,7 @@ func init() {
 		Run:               runC19,
 		MinNonTrivial:     500,
 		MinEffectiveShare: 0.8,
-		RequiredEvents:    map[string]int64{"conflict_runs": 1000, "twin_runs_clean": 1000, "rejected_with_identifying_message": 1000, "cells_n_ge_12": 300, "conflicting_anp_without_rules": 50},
+		RequiredEvents:    map[string]int64{"conflict_runs": 1000, "twin_runs_clean": 1000, "rejected_with_identifying_message": 1000, "cells_n_ge_12": 300, "conflicting_anp_without_rules": 50, "cells_with_a_severe_error_next_to_the_conflict": 100},
 	})
 }
 
@@ -266,6 +268,16 @@ func runC19(c *run.Ctx) {
 	if err := world.WriteDocs(twin, twinDocs, layout, nil); err != nil {
 		r.Discarded = err.Error()
 		return
+	}
+	// a recoverable (severe, not fatal) error next to the conflict - a stray file that is no manifest, read before or after the
+	// conflicting documents - must not let the conflict through; the twin carries the same file and must still analyse
+	if g.P(0.3) {
+		name := rng.Pick(g, []string{"0-stray-values.yaml", "zz-stray-values.yaml"})
+		body := rng.Pick(g, []string{"replicaCount: 1\nimage:\n  tag: latest\n", junkFiles["syntax"], junkDocs["badnetpol"]})
+		_ = os.WriteFile(filepath.Join(bad, name), []byte(body), 0o644)
+		_ = os.WriteFile(filepath.Join(twin, name), []byte(body), 0o644)
+		r.Ev("cells_with_a_severe_error_next_to_the_conflict", 1)
+		r.Feat("stray_severe_file")
 	}
 	r.Hash = tag + "/" + w.Hash()
 	identify := func(msg string) bool {
